@@ -1310,6 +1310,13 @@ impl C03 {
 						self.stats.labels.insert("dust-htlc-forfeited-after-stale-restart".to_string());
 						return Ok(());
 					}
+					// the fulfil the old lineage saw was never committed, so no monitor ever held the preimage; the
+					// HTLC was then resolved on chain and the restarted lineage reports what the chain says
+					let crash = self.restarts.last().map(|r| r.0).unwrap_or(u64::MAX);
+					if stale && tracked_without_preimage && !sim.fulfil_committed_before(S, &m.hash.0, crash) {
+						self.stats.labels.insert("uncommitted-fulfil-resolved-on-chain-after-stale-restart".to_string());
+						return Ok(());
+					}
 					return Err(fail(
 						"contradictory-terminal-events",
 						format!("PaymentFailed ({:?}) for pay#{} at step {} after PaymentSent at step {} (restarts of S (step, snapshot step): {:?}; the running manager descends from a snapshot older than the PaymentSent: {})", reason, i, at, sent, self.restarts, stale),
